@@ -919,7 +919,9 @@ bool VariableManager::handle_array_type_info_declaration(const ASTNode *node,
             }
 
             // 配列初期化
-            if (var.type == TYPE_STRING) {
+            // var.type は上で TYPE_ARRAY_BASE + 要素型 になっているので、
+            // 要素型で判定する（`T[3] a` を T=string でインスタンス化した場合）
+            if (node->array_type_info.base_type == TYPE_STRING) {
                 if (var.is_multidimensional) {
                     var.multidim_array_strings.resize(total_size, "");
                 } else {
